@@ -84,6 +84,9 @@ class Scenario:
     def allow_early_user(self, env: "Env", action: UserAction) -> bool:
         return True
 
+    def user_ready(self, env: "Env", action: UserAction) -> bool:
+        return True
+
     def allow_time_deviation(self, env: "Env") -> bool:
         return True
 
@@ -173,6 +176,8 @@ class Env:
             acts.append('watch:deliver:' + s.label)
         # 3. the user, when the nominal time has come
         ua = self.user[self.user_idx] if self.user_idx < len(self.user) else None
+        if ua is not None and not sc.user_ready(self, ua):
+            ua = None
         if ua is not None and ua.at <= self.now:
             acts.append(f'user:{self.user_idx}:{ua.name}')
         # 4. parked (deliberately slow) responses go last before the clock moves
@@ -232,8 +237,8 @@ class Env:
     # ---- performing actions --------------------------------------------------------------------
     def perform(self, label: str) -> None:
         w = self.world
-        self._after_time = False
         if label == 'run':
+            self._after_time = False   # the coincidence window ends when the loop runs
             self.loop.step()
             return
         if label == 'time':
